@@ -338,6 +338,19 @@ PROGRAMS = {
                                                   N('CLAUSE', N('ALTERNATIVE_PATTERN', N('VARIANT_REF', 'IDENT', 'DOT', 'U_IDENT')), 'COMMA', N('ALTERNATIVE_PATTERN', N('PATTERN_VARIABLE', 'IDENT')), 'R_ARROW', LIT()),
                                                   'R_BRACE'))]),
               N('MODULE_CONSTANT', 'CONST_KW', 'IDENT', 'EQ', LIT())),
+    'type-exprs': N('SOURCE_FILE',
+                    N('FUNCTION', 'FN_KW', 'IDENT',
+                      N('PARAM_LIST', 'L_PAREN',
+                        N('PARAM', 'IDENT', 'COLON', N('TYPE_APPLICATION', 'U_IDENT', N('TYPE_ARG_LIST', 'L_PAREN', N('FN_TYPE', 'FN_KW', 'L_PAREN', 'IDENT', 'R_PAREN', 'R_ARROW', 'IDENT'), 'R_PAREN')), 'COMMA'),
+                        N('PARAM', 'IDENT', 'COLON', N('TUPLE_TYPE', 'HASH', 'L_PAREN', 'U_IDENT', 'COMMA', N('FN_TYPE', 'FN_KW', 'L_PAREN', 'R_PAREN', 'R_ARROW', 'IDENT'), 'R_PAREN')), 'R_PAREN'),
+                      'R_ARROW', N('TYPE_APPLICATION', 'U_IDENT', 'L_PAREN', 'IDENT', 'COMMA',
+                                   N('FN_TYPE', 'FN_KW', 'L_PAREN', 'IDENT', 'COMMA', 'IDENT', 'R_PAREN', 'R_ARROW', N('TUPLE_TYPE', 'HASH', 'L_PAREN', 'IDENT', 'COMMA', 'IDENT', 'R_PAREN')), 'R_PAREN'),
+                      N('BLOCK', 'L_BRACE', 'IDENT', 'R_BRACE')),
+                    N('ADT', 'TYPE_KW', 'U_IDENT', 'L_BRACE',
+                      N('VARIANT', 'U_IDENT', 'L_PAREN', N('VARIANT_FIELD', 'IDENT', 'COLON', N('FN_TYPE', 'FN_KW', 'L_PAREN', 'U_IDENT', 'R_PAREN', 'R_ARROW', 'U_IDENT')), 'COMMA',
+                        N('VARIANT_FIELD', N('TYPE_APPLICATION', 'U_IDENT', 'L_PAREN', N('FN_TYPE', 'FN_KW', 'L_PAREN', 'R_PAREN', 'R_ARROW', 'IDENT'), 'COMMA', N('TYPE_APPLICATION', 'U_IDENT', 'L_PAREN', 'U_IDENT', 'R_PAREN'), 'R_PAREN')), 'R_PAREN'),
+                      'R_BRACE'),
+                    N('MODULE_CONSTANT', 'CONST_KW', 'IDENT', 'COLON', N('TYPE_APPLICATION', 'U_IDENT', 'L_PAREN', N('TUPLE_TYPE', 'HASH', 'L_PAREN', 'U_IDENT', 'COMMA', 'IDENT', 'DOT', 'U_IDENT', 'R_PAREN'), 'R_PAREN'), 'EQ', LIT())),
     'item-boundaries': N('SOURCE_FILE', N('TYPE_ALIAS', 'TYPE_KW', 'U_IDENT', 'EQ', 'U_IDENT'), N('FUNCTION', 'FN_KW', 'IDENT', 'L_PAREN', 'R_PAREN', 'L_BRACE', N('STMT_EXPR', 'IDENT'), N('STMT_EXPR', 'IDENT', 'L_PAREN', 'R_PAREN'), 'R_BRACE'),
                          N('ADT', 'TYPE_KW', 'U_IDENT', 'L_BRACE', 'U_IDENT', 'R_BRACE'), N('IMPORT', 'IMPORT_KW', 'IDENT'), N('MODULE_CONSTANT', 'CONST_KW', 'IDENT', 'EQ', 'IDENT', 'DOT', 'IDENT'),
                          N('FUNCTION', 'PUB_KW', 'FN_KW', 'IDENT', 'L_PAREN', 'R_PAREN', 'L_BRACE', 'R_BRACE')),
